@@ -1267,12 +1267,16 @@ func (c *Ctx) evalParseFormat(pf *types.Func, param *string) (string, string) {
 // service declares a header NAMED LIKE one of them (and a query field named like another header): the evaluated
 // operation.Parameters must contain one entry per (location, name) — in particular a path parameter for every template
 // variable. A de-duplication keyed by the name alone drops the path parameter that shares its name with a header.
-func c18OperationParameters(c *Ctx) {
+func c18OperationParameters(c *Ctx, rid ...string) {
 	r := c.R
-	r.Rule("R18h", "an operation declares one parameter per (location, name): a header, a path variable and a query field may share a name without displacing each other", 1)
+	rule := "R18h"
+	if len(rid) > 0 {
+		rule = rid[0]
+	}
+	r.Rule(rule, "an operation declares one parameter per (location, name): a header, a path variable and a query field may share a name without displacing each other", 1)
 	f := c.P.Func(pkgOpenAPI, "Generator.processMethod")
 	if f == nil {
-		r.Unres("R18h", "processMethod", "", "not found")
+		r.Unres(rule, "processMethod", "", "not found")
 		return
 	}
 	pos := c.P.Pos(c.P.Decls[f].Pos())
@@ -1296,7 +1300,7 @@ func c18OperationParameters(c *Ctx) {
 	run.CallHook = c.xHookT
 	run.StartArgs(f, map[string]Val{"g": g, "service": svc, "method": meth})
 	if run.Aborted != "" || len(run.Used) > 0 {
-		r.Undec("R18h", "parameters of a concrete operation", pos, fmt.Sprintf("processMethod does not evaluate: open decisions %v aborted %q", usedKeys(run), run.Aborted))
+		r.Undec(rule, "parameters of a concrete operation", pos, fmt.Sprintf("processMethod does not evaluate: open decisions %v aborted %q", usedKeys(run), run.Aborted))
 		return
 	}
 	var params Val
@@ -1307,14 +1311,14 @@ func c18OperationParameters(c *Ctx) {
 	}
 	l, ok := params.(VList)
 	if !ok || l.Elems == nil {
-		r.Undec("R18h", "parameters of a concrete operation", pos, fmt.Sprintf("operation.Parameters is not a decidable list (%T)", params))
+		r.Undec(rule, "parameters of a concrete operation", pos, fmt.Sprintf("operation.Parameters is not a decidable list (%T)", params))
 		return
 	}
 	got := map[string]int{}
 	for _, e := range l.Elems {
 		st, ok := e.(*VStruct)
 		if !ok {
-			r.Undec("R18h", "parameters of a concrete operation", pos, "a parameter is not a structured value: "+e.key())
+			r.Undec(rule, "parameters of a concrete operation", pos, "a parameter is not a structured value: "+e.key())
 			return
 		}
 		got[valText(st.Fields["In"])+":"+valText(st.Fields["Name"])]++
@@ -1329,7 +1333,7 @@ func c18OperationParameters(c *Ctx) {
 			dup = append(dup, w)
 		}
 	}
-	r.CheckD(len(missing) == 0 && len(dup) == 0, "R18h", "GET /regions/{region}/clusters/{cluster} with header `region`, header `trace` and query field `trace`: one parameter per (location, name)", pos,
+	r.CheckD(len(missing) == 0 && len(dup) == 0, rule, "GET /regions/{region}/clusters/{cluster} with header `region`, header `trace` and query field `trace`: one parameter per (location, name)", pos,
 		fmt.Sprintf("the evaluated operation declares %v: missing %v, repeated %v — a template variable without a path parameter (or a parameter declared twice) makes the document invalid", sortedKeys(got), missing, dup), map[string]any{"parameters": sortedKeys(got)})
 }
 
